@@ -323,6 +323,17 @@ HEUR = {}        # program term -> {subroutine: AggressiveUnroll.inline_heuristi
 
 # ---------- fixed programs whose event COUNT or zone operands depend on shapes and on which of two equal-looking zones is taken ----------
 SHAPE_PROGS = {
+    # a device kernel whose tone switches select nothing on one axis (forward, reversed, in a group)
+    "idle-tone-switches": ("(zone: grid.Grid[Literal[3], Literal[2]], c: bool)", """
+    f = schedule.device_fn(kidle, [0, 1], [0, 1])
+    f(1.0, 2.0)
+    schedule.reverse(f)(0.5, 0.25)
+    with schedule.parallel():
+        f(b=3.0, a=4.0)
+        schedule.reverse(f)(2.0, b=1.0)
+    if c:
+        f(0.0, 0.0)
+"""),
     # every way of writing the two buffers of top_hat_cz (positional, keyword, mixed, either order)
     "top-hat-cz-call-forms": ("(zone: grid.Grid[Literal[3], Literal[2]], c: bool)", """
     z = spec.get_static_trap(zone_id="traps")
@@ -435,7 +446,13 @@ def run(ctx):
     routes = covering_routes(ctx.rng) if ctx.quick else all_routes()
     ctx.count("routes", len(routes))
     tw_src = "".join(f"@tweezer\ndef {n}{sig}:{body}\n" for n, (sig, body, _) in move_prog.TWEEZERS.items())
-    kernel_ns = {k: v for k, v in kernels.define(tw_src).items() if k in move_prog.TWEEZERS}
+    # two more device kernels for the fixed programs: tone switches that select NOTHING on one axis, and one that keeps its tones on
+    tw_src += ("@tweezer\ndef kidle(a: float, b: float):\n    g = grid.from_positions([a, a + 1.0], [b, b + 2.0])\n    action.set_loc(g)\n    action.turn_on(action.ALL, [0])\n"
+               "    action.move(grid.shift(g, 0.5, 0.0))\n    action.turn_on([], [1])\n    action.move(grid.shift(g, 0.5, 1.0))\n    action.turn_on([0, 1], [1])\n    action.turn_off([1], [])\n"
+               "    action.move(grid.shift(g, 1.5, 1.0))\n    action.turn_off(action.ALL, action.ALL)\n")
+    all_kernels = kernels.define(tw_src)
+    kernel_ns = {k: v for k, v in all_kernels.items() if k in move_prog.TWEEZERS or k == "kidle"}
+    move_native.register_kernels(tw_src, kernel_ns)
     nprog = ctx.pick(40, 400)
     ntup = ctx.pick(3, 5)
     labels_cases = []
